@@ -159,7 +159,7 @@ def match_known(prop, violation, known):
     for k in known:
         if k.get("status") != "open" or k["property"] != prop:
             continue
-        if violation["mechanism"] == k["mechanism"]:
+        if violation["mechanism"] == k.get("mechanism") or violation["mechanism"] in k.get("mechanisms", ()):
             return k
     return None
 
